@@ -37,7 +37,7 @@ class C08(Harness):
     def cells(self, tier):
         out = []
         for gib in (False, True):
-            for base in ("plain", "pipeline", "multiplexer", "randomized", "listgrid"):
+            for base in ("plain", "pipeline", "multiplexer", "randomized", "listgrid", "mixedtypes"):
                 for refit in (True, False):
                     out.append({"name": "%s-%s-%s" % (base, "gib" if gib else "loss", "refit" if refit else "norefit"), "kind": base, "gib": gib, "refit": refit, "cost": 2})
             # a candidate that cannot forecast (NaN predictions, NaN mean score under an honest metric) is never the best
@@ -95,6 +95,10 @@ class C08(Harness):
             base = MUX([("a", Member(p=1)), ("b", Member(p=2))])
             grid = {"selected_forecaster": ["a", "b"][:nc]}
             cand_p = [1, 2][:nc]
+        elif kind == "mixedtypes":
+            # settings that compare equal in Python (1 == 1.0) are still different candidates (int = count, float = fraction ...)
+            base, grid = Member(p=0), {"p": [1, 1.0]}
+            cand_p = [1, 1.0]
         elif kind == "listgrid":
             # a list of grids with different key sets: the second grid's candidates must keep the base value of q
             base, grid = Member(p=0, q=0), [{"p": [1], "q": [5]}, {"p": ps[1:]}]
@@ -156,12 +160,14 @@ class C08(Harness):
         F = lambda p, c, l: W.uf("forecast", [p, c, l], "iii>r")  # noqa
         splits = out["splits"]
         # candidate -> member parameter
-        key = {"plain": "p", "pipeline": "f__p", "multiplexer": "selected_forecaster", "randomized": "p", "listgrid": "p"}[kind]
+        key = {"plain": "p", "pipeline": "f__p", "multiplexer": "selected_forecaster", "randomized": "p", "listgrid": "p", "mixedtypes": "p"}[kind]
         cands = out["params"]
         if kind == "randomized":
             P.check("candidates-enumerated", len(cands) == nc and all(set(d) == {"p"} and d["p"] in range(1, 6) for d in cands) and len({d["p"] for d in cands}) == nc)
         elif kind == "multiplexer":
             P.check("candidates-enumerated", [d[key] for d in cands] == ["a", "b"][:nc])
+        elif kind == "mixedtypes":
+            P.check("candidates-enumerated", [(type(d[key]).__name__, d[key]) for d in cands] == [("int", 1), ("float", 1.0)], {"candidates": [repr(d.get(key)) for d in cands]})
         elif kind == "listgrid":
             P.check("candidates-enumerated", cands == [{"p": 1, "q": 5}] + [{"p": v} for v in range(2, nc + 1)])
         else:
@@ -172,6 +178,8 @@ class C08(Harness):
 
         def member_of(d):
             v = d[key]
+            if isinstance(v, float):
+                v = int(v)
             return {"a": 1, "b": 2}.get(v, v)
 
         tf = (lambda v: W.uf("t", [1, v], "ir>r")) if kind == "pipeline" else (lambda v: v)
